@@ -5,6 +5,8 @@ import FemtoVerif.Model.Writers
 import FemtoVerif.Proofs.Session
 import FemtoVerif.Props.C01
 import FemtoVerif.Spec.C08
+import FemtoVerif.Props.C03
+import FemtoVerif.Gen.Data
 import Mathlib.Tactic.Ring
 import Mathlib.Tactic.Linarith
 import Mathlib.Tactic.NormNum
@@ -459,6 +461,179 @@ theorem nasu_passes_replayed (cfg : Cfg) (w : Nasu) (wss : List (List (G1W × Ra
   · rw [hmap, execStmts_atoms _ a3]; exact a8
 
 
+theorem comment_quiet (b : Bool) (cs : CS) :
+    (∀ i ∈ flattenStmts (comment b cs).1, quiet i = true) ∧ atomsOnly (comment b cs).1 ∧ (comment b cs).2 = cs := by
+  unfold comment
+  cases b <;> simp [flattenStmts_emit, quiet, atomsOnly_emit]
+
+/-- **C08, a marker.** `with G.repeat(n): G.comment(..); G.write(mk.points); G.comment('')` for a closed figure that `write`
+accepts and `n ≥ 1`: the controller performs the figure, point for point, exactly `n` times -/
+theorem mk_scans_replayed (cfg : Cfg) (m : List Pt) (ws : List (G1W × Rat)) (n : Int) (hn : 0 < n)
+    (hp : printed cfg m = .ok ws) (hs : ∀ p ∈ m, p.s = 0 ∨ p.s = 1) (hc : endsClosed m)
+    (cs : CS) (σ : St) (hcs : cs.shutterOn = false) (habs : σ.absMode = true) (hsh : σ.shutter = false) :
+    let r := execOp cfg (Op.rep n [Op.comment true, Op.write m, Op.comment false]) cs
+    r.err = none ∧ r.cs.shutterOn = false ∧
+      movesOf (execStmts r.out σ).2 = scansFrom σ.pos [ws] n.toNat ∧ (execStmts r.out σ).1.pos = scansEnd σ.pos [ws] n.toNat ∧
+      (execStmts r.out σ).1.absMode = true ∧ (execStmts r.out σ).1.shutter = false := by
+  have hw : ∃ o, write cfg m cs = .ok o := by
+    unfold printed at hp; unfold write; rw [hp]; exact ⟨_, rfl⟩
+  obtain ⟨o, hw⟩ := hw
+  obtain ⟨qa, aa, ea⟩ := comment_quiet true cs
+  obtain ⟨qb, ab, eb⟩ := comment_quiet false o.2
+  have f3 : o.2.shutterOn = false := by
+    rw [Femto.C01.write_final_shutter cfg m cs o hw hs]
+    cases hl : m.getLast? with
+    | none => exact hcs
+    | some p => have := hc p hl; simp [this]
+  have hbody : execOps cfg [Op.comment true, Op.write m, Op.comment false] cs =
+      { out := (comment true cs).1 ++ (o.1 ++ (comment false o.2).1), pre := [], cs := o.2, err := none } := by
+    simp [execOps, execOp, Res.ofOut, ea, hw, eb]
+  have hat : atomsOnly ((comment true cs).1 ++ (o.1 ++ (comment false o.2).1)) :=
+    atomsOnly_append aa (atomsOnly_append (write_atoms cfg m cs o hw) ab)
+  have hpass : IsPass ((comment true cs).1 ++ (o.1 ++ (comment false o.2).1)) [ws] := by
+    intro σ' habs' hsh'
+    rw [execStmts_atoms _ hat]
+    simp only [flattenStmts_append, execFlat_append, movesOf_append]
+    obtain ⟨a1, a2, a3, a4⟩ := execFlat_quiet _ qa σ'
+    set σ1 := (execFlat (flattenStmts (comment true cs).1) σ').1
+    obtain ⟨w1, w2⟩ := Femto.C01.write_replays cfg m cs o σ1 ws hw hp hs (by rw [a2, habs']) (by rw [a3, hsh', hcs])
+    obtain ⟨g1, g2⟩ := Femto.C01.write_final_state cfg m cs o σ1 ws hw hp hs (by rw [a2, habs']) (by rw [a3, hsh', hcs])
+    obtain ⟨b1, b2, b3, b4⟩ := execFlat_quiet _ qb (execFlat (flattenStmts o.1) σ1).1
+    refine ⟨?_, ?_, ?_, ?_⟩
+    · rw [a4, w1, b4, a1]; simp [passFrom]
+    · rw [b1, g1, a1]; simp [passEnd]
+    · rw [b2, g2]
+    · rw [b3, w2, f3]
+  obtain ⟨s1, s2, s3, s4⟩ := execRep_scans _ [ws] hpass n.toNat σ habs hsh
+  simp only [execOp]
+  rw [if_neg (by omega), hbody]
+  have e : movesOf ([] : List Ev) = [] := rfl
+  refine ⟨rfl, f3, ?_, ?_, ?_, ?_⟩
+  · simp only [execStmts, execStmt, step, movesOf_append, s1, e, List.append_nil]
+  · simp [execStmts, execStmt, step, s2]
+  · simp [execStmts, execStmt, step, s3]
+  · simp [execStmts, execStmt, step, s4]
+
+/-! ### the whole file -/
+
+theorem execOps_append_ok (cfg : Cfg) (a b : List Op) (cs : CS) (h : (execOps cfg a cs).err = none) :
+    execOps cfg (a ++ b) cs =
+      { out := (execOps cfg a cs).out ++ (execOps cfg b (execOps cfg a cs).cs).out,
+        pre := (execOps cfg b (execOps cfg a cs).cs).pre ++ (execOps cfg a cs).pre,
+        cs := (execOps cfg b (execOps cfg a cs).cs).cs, err := (execOps cfg b (execOps cfg a cs).cs).err } := by
+  induction a generalizing cs with
+  | nil => simp [execOps]
+  | cons op ops ih =>
+    simp only [List.cons_append, execOps] at h ⊢
+    cases he : (execOp cfg op cs).err with
+    | some e => exfalso; rw [he] at h; simp only at h; rw [he] at h; cases h
+    | none =>
+      rw [he] at h
+      simp only at h ⊢
+      rw [ih _ h]
+      simp [List.append_assoc]
+
+/-- a header after which the machine has not moved, is in absolute mode and has the shutter closed -/
+def headerStill (h : List Instr) : Bool :=
+  let r := execFlat h {}
+  r.1.absMode && !r.1.shutter && (movesOf r.2).isEmpty && decide (r.1.pos = {})
+
+/-- the four shipped headers are such headers (re-checked on the regenerated data on every run) -/
+theorem shipped_headers_still : ∀ h ∈ Femto.Gen.headers, headerStill h.2.2 = true := by decide +kernel
+
+
+/-- a positioning move compiled and run with the shutter closed: loop-free, every motion closed, shutter still closed -/
+theorem moveTo_run (cfg : Cfg) (x y z sp : Option Rat) (cs : CS) (σ : St) (hcs : cs.shutterOn = false) (hsh : σ.shutter = false) :
+    atomsOnly (moveTo cfg x y z sp cs).1.1 ∧ (moveTo cfg x y z sp cs).1.2.shutterOn = false ∧
+      (∀ m ∈ movesOf (execFlat (flattenStmts (moveTo cfg x y z sp cs).1.1) σ).2, m.shutter = false) ∧
+      (execFlat (flattenStmts (moveTo cfg x y z sp cs).1.1) σ).1.shutter = false := by
+  have hmc := Femto.C03.moveTo_closed cfg x y z sp cs σ (by rw [hsh, hcs])
+  refine ⟨?_, ?_, hmc, ?_⟩
+  all_goals
+    unfold moveTo closeIfOpen
+    cases formatArgs cfg.digits x y z (some (sp.getD cfg.speedPos)) with
+    | error e => simp [hcs, atomsOnly_nil, flattenStmts, execFlat, hsh]
+    | ok w => ?_
+  · simp only [hcs, seq, Bool.false_eq_true, if_false, List.nil_append]
+    exact atomsOnly_append (atomsOnly_emit _) (atomsOnly_append (dwell_atoms _ _) (atomsOnly_emit _))
+  · simp only [hcs, seq, Bool.false_eq_true, if_false]
+    exact ((dwell_quiet cfg.longPause cs).2).trans hcs
+  · simp only [hcs, seq, Bool.false_eq_true, if_false, List.nil_append, flattenStmts_append, flattenStmts_emit, execFlat_append]
+    obtain ⟨q1, _⟩ := dwell_quiet cfg.longPause cs
+    rw [(execFlat_quiet [Instr.blank] (by simp [quiet]) _).2.2.1, (execFlat_quiet _ q1 _).2.2.1]
+    simp [execFlat, step, hsh]
+
+
+/-- the head of every session (`__enter__` without a session-wide rotation), on a still header: loop-free, no motion, machine
+position still unknown, absolute mode, shutter closed on both sides -/
+theorem head_run (cfg : Cfg) (hh : headerStill cfg.header = true) :
+    let hd : Out := seq (seq (emit (cfg.header ++ [.blank]), ({} : CS)) (dwell (some 1))) fun cs => (emit [.blank], cs)
+    atomsOnly hd.1 ∧ hd.2.shutterOn = false ∧ movesOf (execStmts hd.1 {}).2 = [] ∧ (execStmts hd.1 {}).1.pos = {} ∧
+      (execStmts hd.1 {}).1.absMode = true ∧ (execStmts hd.1 {}).1.shutter = false := by
+  intro hd
+  have hat : atomsOnly hd.1 := by
+    simp only [hd, seq]
+    exact atomsOnly_append (atomsOnly_append (atomsOnly_emit _) (dwell_atoms _ _)) (atomsOnly_emit _)
+  simp only [headerStill, Bool.and_eq_true, Bool.not_eq_true', List.isEmpty_iff, decide_eq_true_eq] at hh
+  obtain ⟨⟨⟨h1, h2⟩, h3⟩, h4⟩ := hh
+  obtain ⟨q1, s1⟩ := dwell_quiet (some 1) ({} : CS)
+  refine ⟨hat, by simp only [hd, seq]; exact s1, ?_⟩
+  rw [execStmts_atoms _ hat]
+  simp only [hd, seq, flattenStmts_append, flattenStmts_emit, execFlat_append, movesOf_append]
+  obtain ⟨a1, a2, a3, a4⟩ := execFlat_quiet [Instr.blank] (by simp [quiet]) (execFlat cfg.header {}).1
+  obtain ⟨b1, b2, b3, b4⟩ := execFlat_quiet _ q1 (execFlat [Instr.blank] (execFlat cfg.header {}).1).1
+  obtain ⟨c1, c2, c3, c4⟩ := execFlat_quiet [Instr.blank] (by simp [quiet])
+    (execFlat (flattenStmts (dwell (some 1) ({} : CS)).1) (execFlat [Instr.blank] (execFlat cfg.header {}).1).1).1
+  refine ⟨by rw [h3, a4, b4, c4]; rfl, by rw [c1, b1, a1, h4], by rw [c2, b2, a2, h1], by rw [c3, b3, a3, h2]⟩
+
+/-- **C08, the whole waveguide file.** For every configuration without a session-wide rotation whose header is still (the
+shipped ones are: `shipped_headers_still`) and every list of compilable groups, the reference controller running the file
+`WaveguideWriter.pgm` writes — header, `DWELL`, one `REPEAT` block per group, `go_init`, the optional homing move — performs
+`groupsFrom` from the unknown start position: every group exactly its number of scans times, every scan every member point for
+point; whatever moves follow (at most the two positioning moves) are made with the shutter closed, and the program ends with
+the shutter closed. -/
+theorem wg_file_replayed (cfg : Cfg) (bunches : List (List WG)) (specs : List (List (List (G1W × Rat)) × Nat))
+    (hrot : cfg.aeroAngle = 0) (hh : headerStill cfg.header = true) (h : List.Forall₂ (GroupOK cfg) bunches specs) :
+    ∃ tail, movesOf (execStmts (session cfg (wgOps bunches)).1 {}).2 = groupsFrom {} specs ++ tail ∧
+      (∀ m ∈ tail, m.shutter = false) ∧ (execStmts (session cfg (wgOps bunches)).1 {}).1.shutter = false := by
+  obtain ⟨d1, d2, d3, d4, d5, d6⟩ := head_run cfg hh
+  set hd : Out := seq (seq (emit (cfg.header ++ [.blank]), ({} : CS)) (dwell (some 1))) fun cs => (emit [.blank], cs) with hhd
+  obtain ⟨g1, g2, g3, g4, g5, g6⟩ := wg_groups_replayed cfg bunches specs h hd.2 (execStmts hd.1 {}).1 d2 d5 d6
+  set rg := execOps cfg (bunchOps bunches) hd.2 with hrg
+  set σg := (execStmts rg.out (execStmts hd.1 {}).1).1 with hσg
+  -- go_init
+  obtain ⟨m1, m2, m3, m4⟩ := moveTo_run cfg (some (-2)) (some 0) (some 0) none rg.cs σg g3 g6
+  set mo := moveTo cfg (some (-2)) (some 0) (some 0) none rg.cs with hmo
+  set σm := (execStmts mo.1.1 σg).1 with hσm
+  have m4' : σm.shutter = false := by rw [hσm, execStmts_atoms _ m1]; exact m4
+  -- homing
+  obtain ⟨n1, n2, n3, n4⟩ := moveTo_run cfg (some (-2)) (some 0) (some 0) none mo.1.2 σm m2 m4'
+  set ho := moveTo cfg (some (-2)) (some 0) (some 0) none mo.1.2 with hho
+  have hr : execOps cfg (wgOps bunches) hd.2 = { out := rg.out ++ mo.1.1, pre := [], cs := mo.1.2, err := mo.2 } := by
+    rw [wgOps_eq, execOps_append_ok cfg _ _ _ g1]
+    simp [execOps, execOp, g2, ← hrg, ← hmo]
+    cases mo.2 <;> simp
+  refine ⟨movesOf (execStmts mo.1.1 σg).2 ++ (if cfg.home = true then movesOf (execStmts ho.1.1 σm).2 else []), ?_, ?_, ?_⟩
+  · unfold session
+    simp only [hrot, if_true, ← hhd, hr]
+    cases hhome : cfg.home
+    · simp only [Bool.false_eq_true, if_false, List.nil_append, List.append_nil, execStmts_append, movesOf_append, d3, d4, g4,
+        ← hσg]
+    · simp only [if_true, List.nil_append, List.append_nil, execStmts_append, movesOf_append, d3, d4, g4, ← hσg, ← hho, ← hσm,
+        List.append_assoc]
+  · intro m hm
+    rcases List.mem_append.mp hm with hm | hm
+    · rw [execStmts_atoms _ m1] at hm; exact m3 m hm
+    · split at hm
+      · rw [execStmts_atoms _ n1] at hm; exact n3 m hm
+      · simp at hm
+  · unfold session
+    simp only [hrot, if_true, ← hhd, hr]
+    cases hhome : cfg.home
+    · simp only [Bool.false_eq_true, if_false, List.nil_append, List.append_nil, execStmts_append, ← hσg, ← hσm, m4']
+    · simp only [if_true, List.nil_append, List.append_nil, execStmts_append, ← hσg, ← hσm, ← hho]
+      rw [execStmts_atoms _ n1]; exact n4
+
 /-! non-vacuity: two closed waveguides in one group, three scans, mirrored and shifted configuration; the hypotheses of
 `wg_groups_replayed` are met and the trace has 3 × (moves of one pass) moves -/
 private def demoCfg : Cfg := { shiftX := 1/2, flipX := true, neff := 2 }
@@ -469,6 +644,7 @@ example : (match printed demoCfg demoA, printed demoCfg demoB with
     | .ok wa, .ok wb => (groupsFrom {} [([wa, wb], 3)]).length == 21 && (passFrom {} [wa, wb]).length == 7
     | _, _ => false) = true := by decide +kernel
 example : (∀ p ∈ demoA, p.s = 0 ∨ p.s = 1) ∧ (∀ p ∈ demoB, p.s = 0 ∨ p.s = 1) := by decide
+example : headerStill ({ demoCfg with header := Femto.Gen.header_uwe } : Cfg).header = true := by decide +kernel
 example : endsClosed demoA ∧ endsClosed demoB := by
   constructor <;> (intro p h; simp [demoA, demoB] at h; subst h; rfl)
 
